@@ -1,20 +1,221 @@
-//! C10 — not implemented yet (stub).
+//! C10 — garbage collection is unobservable to scripts (modulo WeakRef/FinalizationRegistry
+//! reporting genuinely unreachable objects at most once) and leaves nothing behind:
+//! trace(P, collect every k-th allocation) = trace(P, never); heap(after drop + collect) = heap(before).
 
 use crate::driver::{CaseOut, Env, Prop, Stream, Tier};
+use crate::genp::{order, prog, weak, wild};
+use crate::run::{RunCfg, Trace, diff_traces, run};
+use crate::tape::Tape;
 
 pub struct C10;
+
+fn cfg(stress: u64) -> RunCfg {
+    RunCfg { gc_stress: stress, loop_limit: 200_000, ..RunCfg::default() }
+}
+
+/// allocations and collections during a run (from the gc hook counters)
+fn measured(src: &str, stress: u64) -> (Trace, u64, usize) {
+    let before = boa_gc::verif::stats();
+    let t = run(src, &cfg(stress));
+    let after = boa_gc::verif::stats();
+    (t, after.allocations - before.allocations, after.collections - before.collections)
+}
+
+const ASYNC_SNIPPETS: &[&str] = &[
+    "async function af(x) { var a = [x, { x: x }]; await null; var b = a.concat([await Promise.resolve(x + 1)]); return b; }\naf(1).then(function (v) { print(show(v)); });\n",
+    "function* g() { var o = { n: 1 }; var got = yield o; o.n += got; yield [o, got]; return o; }\nvar it = g(); print(show(it.next())); var big = []; for (var i = 0; i < 50; i++) big.push({ i: i }); print(show(it.next(5))); print(show(it.next()));\n",
+    "var p = new Promise(function (res) { res({ then(r) { r([1, 2, 3].map(function (x) { return { x: x } })) } }) });\np.then(function (v) { print(show(v)); return Promise.all([v, Promise.resolve({ k: 1 })]); }).then(function (v) { print(show(v)); });\n",
+    "async function* ag() { for (var i = 0; i < 3; i++) { yield { i: i, arr: new Array(5).fill(i) }; } }\n(async function () { for await (var v of ag()) print(show(v)); })();\n",
+    "var bound = (function (a, b) { return [this, a, b] }).bind({ t: 1 }, { a: 1 });\nvar junk = []; for (var i = 0; i < 60; i++) junk.push('s' + i);\nprint(show(bound({ b: 2 })));\n",
+    "var px = new Proxy({ a: 1 }, { get(t, k, r) { return [k, t[k]] }, ownKeys(t) { return ['a', 'zz'] }, getOwnPropertyDescriptor(t, k) { return { value: 1, configurable: true, enumerable: true } } });\nprint(show(px.a), show(Object.keys(px)));\n",
+    "class A { #priv = { p: [1, 2] }; static make() { return new A() } get() { return this.#priv } }\nvar list = []; for (var i = 0; i < 30; i++) list.push(A.make()); print(show(list[29].get()), list.length);\n",
+    "var re = /(a+)(b)?/g; var out = []; 'aab ab aaa'.replace(re, function (m, a, b, off) { out.push([m, a, b, off]); return m.toUpperCase() }); print(show(out));\nprint(show([...'xaby'.matchAll(/(?<q>a)(b)/g)].map(function (m) { return [m.index, m.groups.q] })));\n",
+    "var ta = new Float64Array(16); for (var i = 0; i < 16; i++) ta[i] = i / 2; var sub = ta.subarray(4, 8); var cp = sub.map(function (x) { return x * 2 }); print(show(Array.from(cp)), sub.buffer === ta.buffer);\n",
+    "var m = new Map(); for (var i = 0; i < 40; i++) m.set({ i: i }, [i]); var it2 = m.entries(); var first = it2.next().value; m.clear(); print(show(first[1]), m.size, show(it2.next()));\n",
+    "var s = new Set(); var objs = []; for (var i = 0; i < 20; i++) { var o = { i: i }; objs.push(o); s.add(o); } objs.length = 5; var c = 0; s.forEach(function (v) { c += v.i; if (v.i < 3) s.delete(v) }); print(c, s.size);\n",
+    "function outer() { var big = new Array(30).fill(0).map(function (_, i) { return { i: i } }); return function () { return big.length + big[7].i } }\nvar fs = []; for (var i = 0; i < 10; i++) fs.push(outer()); print(fs.map(function (f) { return f() }).join(','));\n",
+    "var err; try { null.x } catch (e) { err = e } var errs = []; for (var i = 0; i < 20; i++) errs.push(new RangeError('r' + i)); print(err instanceof TypeError, errs[19] instanceof RangeError, errs.length);\n",
+    "var str = ''; for (var i = 0; i < 200; i++) str += String.fromCharCode(97 + i % 26); var parts = str.split('e'); print(parts.length, parts[3], str.slice(10, 20).toUpperCase(), JSON.stringify({ s: str.slice(0, 5), a: [1, { b: 2 }] }));\n",
+    "var sym = Symbol('k'); var o = { [sym]: { deep: [1, 2] } }; var d = Object.getOwnPropertyDescriptors(o); var clone = Object.defineProperties({}, d); print(show(clone[sym]), Object.getOwnPropertySymbols(clone).length);\n",
+];
+
+impl C10 {
+    fn schedules(t: &mut Tape<'_>, allocs: u64, tier: Tier) -> Vec<u64> {
+        let mut v = vec![];
+        if allocs < 3000 {
+            v.push(1);
+        }
+        let pool = [2u64, 3, 7, 64, 5, 13];
+        v.push(pool[t.below(pool.len())]);
+        if tier == Tier::Thorough {
+            v.push(pool[t.below(pool.len())]);
+            v.push(2 + t.below(200) as u64);
+        }
+        v.dedup();
+        v
+    }
+
+    fn check_plain(&self, env: &Env, src: &str, tape: &[u8], labels: Vec<&'static str>) -> CaseOut {
+        let (base, allocs, _) = measured(src, 0);
+        if base.completion.is_limit() {
+            return CaseOut::skip(src.to_string(), "boa-limit");
+        }
+        let mut t = Tape::new(tape);
+        let mut max_coll = 0;
+        for k in Self::schedules(&mut t, allocs, env.tier) {
+            let (tr, _, colls) = measured(src, k);
+            max_coll = max_coll.max(colls);
+            if let Some((sig, d)) = diff_traces("no-collection", &base, &format!("collect-every-{k}"), &tr) {
+                return CaseOut::fail(src.to_string(), format!("gc-stress: {sig}"), format!("schedule: collect every {k}-th allocation\n{d}")).with_labels(labels);
+            }
+        }
+        let nontrivial = max_coll >= 5 && allocs >= 50;
+        CaseOut::pass(src.to_string(), nontrivial).with_labels(labels)
+    }
+
+    fn check_weak(&self, env: &Env, wp: &weak::WeakProgram, tape: &[u8]) -> CaseOut {
+        let src = &wp.src;
+        let strip = |t: &Trace| -> Trace {
+            Trace { prints: t.prints.iter().filter(|l| !l.starts_with("cleanup ") && !l.starts_with("deref ")).cloned().collect(), completion: t.completion.clone() }
+        };
+        let (base, allocs, _) = measured(src, 0);
+        let mut t = Tape::new(tape);
+        let mut saw_dead = false;
+        let mut saw_cleanup = false;
+        for k in Self::schedules(&mut t, allocs, env.tier).into_iter().chain([0]) {
+            let (tr, _, _) = measured(src, k);
+            if let Some((sig, d)) = diff_traces("no-collection", &strip(&base), &format!("collect-every-{k}"), &strip(&tr)) {
+                return CaseOut::fail(src.to_string(), format!("weak gc-stress: {sig}"), d);
+            }
+            let mut seen = std::collections::HashSet::new();
+            for l in &tr.prints {
+                if let Some(h) = l.strip_prefix("cleanup ") {
+                    saw_cleanup = true;
+                    if wp.never_cleanup.iter().any(|x| x == h) {
+                        return CaseOut::fail(src.to_string(), "weak: cleanup for a reachable or unregistered target", format!("schedule {k}: {l}\n{}", tr.render()));
+                    }
+                    if !wp.may_cleanup.iter().any(|x| x == h) {
+                        return CaseOut::fail(src.to_string(), "weak: cleanup with unknown held value", format!("schedule {k}: {l}\n{}", tr.render()));
+                    }
+                    if !seen.insert(h.to_string()) {
+                        return CaseOut::fail(src.to_string(), "weak: cleanup ran twice for one registration", format!("schedule {k}: {l}\n{}", tr.render()));
+                    }
+                }
+                if let Some(rest) = l.strip_prefix("deref ") {
+                    let mut it = rest.split(' ');
+                    let name = it.next().unwrap_or("");
+                    let st = it.next().unwrap_or("");
+                    if st == "dead" {
+                        saw_dead = true;
+                        if wp.must_live.iter().any(|x| x == name) {
+                            return CaseOut::fail(src.to_string(), "weak: deref() lost a strongly reachable target", format!("schedule {k}: {l}\n{}", tr.render()));
+                        }
+                    }
+                }
+                if l.starts_with("same-job") && l.contains("false") {
+                    return CaseOut::fail(src.to_string(), "weak: target died within the job that created its WeakRef", format!("schedule {k}: {l}\n{}", tr.render()));
+                }
+            }
+        }
+        let mut labels = vec!["weak-program"];
+        if saw_dead {
+            labels.push("weak-target-collected");
+        }
+        if saw_cleanup {
+            labels.push("finalization-callback-ran");
+        }
+        CaseOut::pass(src.to_string(), saw_dead || saw_cleanup).with_labels(labels)
+    }
+
+    /// leak clause: after dropping a context (and everything else) two collections bring the
+    /// heap back to the baseline taken after one warm-up context.
+    fn check_leak(&self, src: &str) -> CaseOut {
+        boa_gc::force_collect();
+        boa_gc::force_collect();
+        // warm-up context so that by-design per-thread caches are in the baseline
+        let _ = run("1", &cfg(0));
+        boa_gc::force_collect();
+        boa_gc::force_collect();
+        let base = boa_gc::verif::stats();
+        let t = run(src, &cfg(0));
+        boa_gc::force_collect();
+        boa_gc::force_collect();
+        boa_gc::force_collect();
+        let after = boa_gc::verif::stats();
+        if after.strongs != base.strongs || after.ephemerons != base.ephemerons || after.weak_maps != base.weak_maps {
+            return CaseOut::fail(
+                src.to_string(),
+                format!("leak: heap not reclaimed after context drop (strongs {:+}, ephemerons {:+}, weak maps {:+})", after.strongs as i64 - base.strongs as i64, after.ephemerons as i64 - base.ephemerons as i64, after.weak_maps as i64 - base.weak_maps as i64),
+                format!("baseline {base:?}\nafter    {after:?}\n{}", t.render()),
+            );
+        }
+        CaseOut::pass(src.to_string(), t.prints.len() >= 2).with_labels(vec!["leak-check"])
+    }
+}
 
 impl Prop for C10 {
     fn id(&self) -> &'static str {
         "C10"
     }
-    fn streams(&self, _tier: Tier) -> Vec<Stream> {
-        vec![]
+    fn streams(&self, tier: Tier) -> Vec<Stream> {
+        let m = if tier == Tier::Quick { 1 } else { 40 };
+        vec![
+            Stream::new("core", 700 * m, 500).batch(25),
+            Stream::new("structures", 600 * m, 300).batch(25),
+            Stream::new("wild", 400 * m, 200).batch(25),
+            Stream::new("weak", 500 * m, 200).batch(25),
+            Stream::new("leak", 300 * m, 400).batch(25),
+        ]
     }
     fn rule(&self) -> String {
-        "stub".into()
+        "programs (core = gen::prog; structures = 2-4 allocation-heavy snippets using async functions, generators suspended across collections, thenables, async generators, bound functions, proxies, private fields, regexps, typed arrays, Map/Set iterators, closures, errors, ropes, symbols; wild = random builtin calls) are run with no collection and with a forced collection at every k-th allocation after context creation (k=1 when the run allocates < 3000 objects, plus k drawn from {2,3,5,7,13,64}; thorough adds two more incl. a tape-random k); traces must be equal. weak = generated WeakRef/FinalizationRegistry/WeakMap/WeakSet programs where the generator knows which targets stay reachable: all non-weak prints must be equal; cleanup callbacks only for dropped, still-registered targets, at most once; deref() never loses a reachable target nor a target within the job that created the WeakRef. leak = heap statistics (strong boxes, ephemerons, weak maps) after dropping the context and collecting equal the baseline taken after a warm-up context. Non-trivial = >= 5 collections happened during the run and >= 50 allocations (weak: a target was observed collected or a cleanup ran; leak: program printed >= 2 lines); distinct = distinct source".into()
     }
-    fn run_case(&self, _env: &mut Env, _stream: &str, _index: u64, _tape: &[u8]) -> CaseOut {
-        CaseOut::skip(String::new(), "stub")
+    fn run_case(&self, env: &mut Env, stream: &str, _index: u64, tape: &[u8]) -> CaseOut {
+        match stream {
+            "core" => {
+                let mut o = prog::Opts::core();
+                o.max_stmts = 8;
+                let p = prog::generate(tape, o);
+                self.check_plain(env, &p.src, tape, vec!["core-program"])
+            }
+            "structures" => {
+                let mut t = Tape::new(tape);
+                let mut s = String::from(prog::PRELUDE);
+                let n = 2 + t.below(3);
+                for _ in 0..n {
+                    s.push_str("{\n");
+                    s.push_str(&t.pick(ASYNC_SNIPPETS).replace("var ", "let "));
+                    s.push_str("}\n");
+                }
+                self.check_plain(env, &s, tape, vec!["structures-program"])
+            }
+            "wild" => self.check_plain(env, &wild::generate(tape).src, tape, vec!["wild-program"]),
+            "weak" => self.check_weak(env, &weak::generate(tape), tape),
+            _ => {
+                let mut t = Tape::new(tape);
+                let src = match t.below(4) {
+                    0 => prog::generate(&tape[1.min(tape.len())..], prog::Opts::core()).src,
+                    1 => order::generate(&tape[1.min(tape.len())..]).0,
+                    2 => weak::generate(&tape[1.min(tape.len())..]).src,
+                    _ => {
+                        let mut s = String::from(prog::PRELUDE);
+                        for _ in 0..3 {
+                            s.push_str("{\n");
+                            s.push_str(&t.pick(ASYNC_SNIPPETS).replace("var ", "let "));
+                            s.push_str("}\n");
+                        }
+                        s
+                    }
+                };
+                self.check_leak(&src)
+            }
+        }
+    }
+    fn run_rendered(&self, env: &mut Env, stream: &str, rendered: &str) -> Option<CaseOut> {
+        match stream {
+            "leak" => Some(self.check_leak(rendered)),
+            "weak" => None,
+            _ => Some(self.check_plain(env, rendered, rendered.as_bytes(), vec![])),
+        }
     }
 }
